@@ -538,6 +538,14 @@ def run(repo, rep):
     from ..api_pitfalls import protocol_version_problems as _pvp
     _pv, _pn = _pvp(repo)
     rep.check(not _pv, 'C05.G9', 'package:protocol-version-tests', '', '%d test(s) of the protocol version, all on single bits' % _pn, '; '.join(_pv[:3]))
+    # G10: what is taken off the outgoing queue is not lost
+    rep.rule('C05.G10', 'a request primitive taken from the service user\'s queue is handled or parked, never overwritten: an attribute '
+             'that keeps such a primitive for later is written only on a path on which it is known to be empty (``is None``)', 1)
+    from ..provider_model import parked_primitive_problems
+    p10, n10 = parked_primitive_problems(repo, pm)
+    rep.notes['parked_primitives'] = n10
+    rep.check(not p10, 'C05.G10', 'dulprovider:DULServiceProvider:parked-primitives', pm.method('_check_outgoing_pdu').loc()
+              if 'pm' in dir() else '', '%d store(s) of a queued primitive into an attribute, each into an empty one' % n10, '; '.join(sorted(set(p10))))
     check_maps(repo, model, rep)
     for tname in ('PDU_TYPES', 'PDU_TO_EVENT'):
         w = repo.table_writers('dulprovider', tname)
@@ -550,7 +558,7 @@ def run(repo, rep):
     check_recv_guard(pm, rep)
     check_loop_order(pm, rep)
     check_wire_order(pm, rep)
-    from ..provider_model import PRODUCERS, blocking_problems, make_raises, pdu_decode_raise_set
+    from ..provider_model import blocking_problems, make_raises, pdu_decode_raise_set
     finals_, blog_ = [], []
     for name in PRODUCERS:
         f_, l_ = pm.paths_and_log(name, raises_of=make_raises(repo, pdu_decode_raise_set(repo)))
